@@ -284,3 +284,39 @@ Definition rack_assign (zo ro : bytes -> list bytes) (ms : list member) (ps : li
 Definition rack_assign_canonical (ms : list member) (ps : list partition) : option (list triple) :=
   let pbt := partitions_by_topic ps in
   rack_assign (fun t => zones_of (aget t pbt)) (fun t => zones_of (aget t pbt)) ms ps.
+
+(* ---- the group leader's glue: extractTopics (reader.go) and
+        ConsumerGroup.assignTopicPartitions (consumergroup.go) ---- *)
+(* for _, member := range members { for _, topic := range member.Topics {
+     if seen { continue }; topics = append(topics, topic); visited[topic] = {} } } *)
+Definition add_topics (acc : list bytes) (l : list bytes) : list bytes :=
+  fold_left (fun acc t => if existsb (bytes_eqb t) acc then acc else acc ++ [t]) l acc.
+Definition extract_topics_raw (ms : list member) : list bytes :=
+  fold_left (fun acc m => add_topics acc (m_topics m)) ms [].
+
+(* sort.Strings on distinct strings *)
+Fixpoint insert_bytes (x : bytes) (l : list bytes) {struct l} : list bytes :=
+  match l with
+  | [] => [x]
+  | y :: t => if bytes_ltb y x then y :: insert_bytes x t else x :: l
+  end.
+Definition sort_bytes (l : list bytes) : list bytes := fold_right insert_bytes [] l.
+
+Definition extract_topics (ms : list member) : list bytes := sort_bytes (extract_topics_raw ms).
+
+(* the broker's answer to a metadata request: the partitions of exactly the requested
+   topics (in the cluster's order); what conn.readPartitions(topics...) returns *)
+Definition read_partitions (cluster : list partition) (topics : list bytes) : list partition :=
+  filter (fun p => existsb (bytes_eqb (p_topic p)) topics) cluster.
+
+(* assignTopicPartitions on the success path: balancer.AssignGroups(members, partitions)
+   with partitions = conn.readPartitions(extractTopics(members)...) *)
+Definition leader_partitions (ms : list member) (cluster : list partition) : list partition :=
+  read_partitions cluster (extract_topics ms).
+Definition leader_range (ms : list member) (cluster : list partition) : list triple :=
+  range_assign ms (leader_partitions ms cluster).
+Definition leader_rr (ms : list member) (cluster : list partition) : list triple :=
+  rr_assign ms (leader_partitions ms cluster).
+Definition leader_rack (zo ro : bytes -> list bytes) (ms : list member) (cluster : list partition)
+  : option (list triple) :=
+  rack_assign zo ro ms (leader_partitions ms cluster).
